@@ -1,19 +1,313 @@
 package main
 
 import (
+	"bytes"
+	"fmt"
+	"os"
+	"path/filepath"
+	"sort"
+
+	"github.com/ontio/ontology/common"
+	"github.com/ontio/ontology/core/types"
+	"github.com/ontio/ontology/smartcontract/event"
+	"github.com/ontio/ontology/vm/neovm"
+	"verifharness/lib/chain"
 	"verifharness/lib/vf"
 )
 
-// runVMLevel is the hook for the VM-level oracle of C44 (DESIGN.md §5, "Oracle (VM
-// level)"): NeoVM scripts on a solo ledger that deploy a contract, fill its storage over
-// several blocks, call Contract.Migrate / Contract.Destroy and then try Storage.Put/Get
-// through the old context, a redeploy of the same code (Deploy tx and Contract.Create) and
-// a migration to a destroyed address.
+// multiContract is a deployable NeoVM contract dispatching on the integer on top of the stack:
 //
-// STUB: intentionally does nothing yet.  The ledger-level scenarios are added here later;
-// until then C44's verdict covers the storage layer only (see the assumption recorded by
-// main through this function).
+//	1: Storage.Put(key, value)   stack [value, key, 1]
+//	2: Storage.Delete(key)       stack [key, 2]
+//	3: Contract.Destroy          stack [3]
+//	4: Contract.Migrate(...)     stack [desc, email, author, version, name, vmtype, code, 4]
+//	5: Destroy then Put in the same invocation   stack [value, key, 5]
+//	6: Migrate then Put through the OLD context in the same invocation  stack [value, key, <migrate args>, 6]
+func multiContract(salt byte) []byte {
+	sys := func(n string) []byte { return chain.NewAsm().Syscall(n).Bytes() }
+	cat := func(p ...[]byte) []byte { return bytes.Join(p, nil) }
+	drop, ret := []byte{byte(neovm.DROP)}, []byte{byte(neovm.RET)}
+	put := cat(sys("System.Storage.GetContext"), sys("System.Storage.Put"))
+	bodies := [][]byte{
+		cat(drop, put, ret),
+		cat(drop, sys("System.Storage.GetContext"), sys("System.Storage.Delete"), ret),
+		cat(drop, sys("System.Contract.Destroy"), ret),
+		cat(drop, sys("Ontology.Contract.Migrate"), drop, ret),
+		cat(drop, sys("System.Contract.Destroy"), put, ret),
+		cat(drop, sys("Ontology.Contract.Migrate"), drop, put, ret),
+	}
+	code := chain.NewAsm().Push([]byte{salt, 0x44}).Op(neovm.DROP).Bytes()
+	for i, b := range bodies {
+		hdr := chain.NewAsm().Op(neovm.DUP).PushInt(int64(i + 1)).Op(neovm.NUMEQUAL).Bytes()
+		off := 3 + len(b)
+		hdr = append(hdr, byte(neovm.JMPIFNOT), byte(off), byte(off>>8))
+		code = append(code, hdr...)
+		code = append(code, b...)
+	}
+	return append(code, byte(neovm.RET))
+}
+
+func migrateArgs(a *chain.Asm, newCode []byte) {
+	a.Push([]byte("d")).Push([]byte("e")).Push([]byte("a")).Push([]byte("1")).Push([]byte("n")).PushInt(1).Push(newCode)
+}
+
+// storageOf returns the live storage entries of a contract address from the committed state dump.
+func storageOf(dump map[string]string, addr common.Address) map[string]string {
+	out := map[string]string{}
+	p := string(append([]byte{0x05}, addr[:]...))
+	for k, v := range dump {
+		if len(k) >= len(p) && k[:len(p)] == p {
+			out[k[len(p):]] = v
+		}
+	}
+	return out
+}
+
+func sameMap(a, b map[string]string) bool {
+	if len(a) != len(b) {
+		return false
+	}
+	for k, v := range a {
+		if bv, ok := b[k]; !ok || bv != v {
+			return false
+		}
+	}
+	return true
+}
+
+// runVMLevel: ledger-level scenarios.  A contract is deployed, its storage filled over several blocks,
+// then migrated or destroyed by a real transaction; afterwards the old address is attacked: calls
+// through the old address, redeploy by a Deploy transaction and by Contract.Create, migration of a
+// third contract TO the dead address.  After every block: every entry that was live under the old
+// address is readable under the new one with the same value (migrate) / gone (destroy); nothing is ever
+// live again under the old address and the old address has no contract.
 func runVMLevel(r *vf.Run, rng *vf.RNG) {
-	_ = rng
-	r.Assume("VM-level scenarios (Contract.Migrate/Destroy on a solo ledger, redeploy refusal) are not implemented yet: runVMLevel is a stub; this run decides the storage-layer half only")
+	scratch := vf.Scratch("c44vm")
+	defer os.RemoveAll(scratch)
+	w := chain.NewWorld(fmt.Sprintf("c44-%d", vf.Seed()), 3)
+	c, err := chain.NewSolo(filepath.Join(scratch, "l"), w.BK)
+	if err != nil {
+		panic(err)
+	}
+	defer c.Close()
+	commit := func(txs []*types.Transaction) []*event.ExecuteNotify {
+		b, err := c.MakeBlock(txs, 0)
+		if err != nil {
+			panic(err)
+		}
+		res, err := c.CommitExec(b)
+		if err != nil {
+			panic(fmt.Errorf("c44 vm-level: block rejected: %v", err))
+		}
+		return res.Notify
+	}
+	commit(w.FundingTxs())
+	invoke := func(code []byte) *types.Transaction {
+		mt := w.TB.Invoke(0, 90000000, code)
+		chain.Sign(mt, w.Accts[0])
+		return chain.Immutable(mt)
+	}
+	deployTx := func(code []byte) *types.Transaction {
+		d, err := w.TB.Deploy(0, 30000000, code, "c44")
+		if err != nil {
+			panic(err)
+		}
+		chain.Sign(d, w.Accts[0])
+		return chain.Immutable(d)
+	}
+	N := vf.N(60, 1500)
+	for sc := 0; sc < N; sc++ {
+		sub := rng.Sub(uint64(sc))
+		salt := byte(sc % 250)
+		gen := byte(sc / 250)
+		xCode := multiContract(salt)
+		xCode = append(chain.NewAsm().Push([]byte{gen, 0x01}).Op(neovm.DROP).Bytes(), xCode...)
+		yCode := append(chain.NewAsm().Push([]byte{gen, 0x02}).Op(neovm.DROP).Bytes(), multiContract(salt)...)
+		zCode := append(chain.NewAsm().Push([]byte{gen, 0x03}).Op(neovm.DROP).Bytes(), multiContract(salt)...)
+		X, Y, Z := common.AddressFromVmCode(xCode), common.AddressFromVmCode(yCode), common.AddressFromVmCode(zCode)
+		model := map[string][]byte{} // expected storage of X: last successful put per key
+		type putRec struct {
+			hash     common.Uint256
+			key, val []byte
+		}
+		var pending []putRec
+		putTx := func(target common.Address, k, v []byte) *types.Transaction {
+			t := invoke(chain.NewAsm().Push(v).Push(k).PushInt(1).AppCall(target).Bytes())
+			if target == X {
+				pending = append(pending, putRec{t.Hash(), k, v})
+			}
+			return t
+		}
+		settle := func(notes []*event.ExecuteNotify) {
+			ok := map[common.Uint256]bool{}
+			for _, n := range notes {
+				ok[n.TxHash] = n.State == event.CONTRACT_STATE_SUCCESS
+			}
+			for _, p := range pending {
+				if ok[p.hash] {
+					model[string(p.key)] = p.val
+				}
+			}
+			pending = nil
+		}
+		id := map[string]interface{}{"scenario": sc, "X": X.ToHexString(), "Y": Y.ToHexString()}
+		steps := []string{}
+		id["steps"] = &steps
+		// --- fill: deploy X and Z, put keys over several blocks (values are storage items: compare raw dump values)
+		txs := []*types.Transaction{deployTx(xCode), deployTx(zCode)}
+		nk := 1 + sub.Intn(8)
+		var keys [][]byte
+		for i := 0; i < nk; i++ {
+			k := append([]byte("k"), sub.Bytes(sub.Intn(20))...)
+			keys = append(keys, k)
+		}
+		blocks := 1 + sub.Intn(3)
+		for b := 0; b < blocks; b++ {
+			for _, k := range keys {
+				if sub.Chance(60) {
+					txs = append(txs, putTx(X, k, sub.Bytes(1+sub.Intn(12))))
+				}
+			}
+			if b == blocks-1 && sub.Chance(50) {
+				break // the killing transaction goes into the same block as the last puts
+			}
+			settle(commit(txs))
+			txs = nil
+		}
+		mode := []string{"destroy", "migrate", "destroy+put-same-invocation", "migrate+put-old-context-same-invocation"}[sub.Intn(4)]
+		steps = append(steps, fmt.Sprintf("deploy X,Z; %d keys over %d blocks; then %s", nk, blocks, mode))
+		var kill *types.Transaction
+		switch mode {
+		case "destroy":
+			kill = invoke(chain.NewAsm().PushInt(3).AppCall(X).Bytes())
+		case "migrate":
+			a := chain.NewAsm()
+			migrateArgs(a, yCode)
+			kill = invoke(a.PushInt(4).AppCall(X).Bytes())
+		case "destroy+put-same-invocation":
+			kill = invoke(chain.NewAsm().Push([]byte("zombie")).Push([]byte("Zkey")).PushInt(5).AppCall(X).Bytes())
+		default:
+			a := chain.NewAsm().Push([]byte("zombie")).Push([]byte("Zkey"))
+			migrateArgs(a, yCode)
+			kill = invoke(a.PushInt(6).AppCall(X).Bytes())
+		}
+		txs = append(txs, kill)
+		notes := commit(txs)
+		settle(notes[:len(notes)-1])
+		killed := notes[len(notes)-1].State == event.CONTRACT_STATE_SUCCESS
+		if notes[len(notes)-1].TxHash != kill.Hash() {
+			panic("c44 vm-level: last notification is not the killing transaction's")
+		}
+		_, _, dump := c.DumpState()
+		if !killed {
+			// the killing transaction failed as a whole (e.g. Put through a context whose contract is gone):
+			// then nothing of it may have survived — X still lives with its storage
+			r.Count("vm/kill_tx_failed/" + mode)
+			if cs, _ := c.Ledger.GetContractState(X); cs == nil {
+				r.Violation("vm:failed-kill-transaction-removed-contract:"+mode, "X has no contract state after a FAILED transaction", id)
+			}
+			if _, ok := storageOf(dump, X)["Zkey"]; ok {
+				r.Violation("vm:failed-kill-transaction-left-storage:"+mode, "zombie key present", id)
+			}
+			r.Eval(fmt.Sprintf("vm/%s/failed/%d", mode, nk))
+			continue
+		}
+		r.Count("vm/killed/" + mode)
+		oldLive := storageOf(dump, X)
+		zombie := false
+		if _, ok := oldLive["Zkey"]; ok {
+			// the write issued AFTER Destroy/Migrate inside the killing invocation took effect: reported under
+			// its own key, once per scenario; every other live entry is reported by the generic clauses
+			zombie = true
+			delete(oldLive, "Zkey")
+			r.Violation("vm:put-through-dead-context-in-killing-invocation-took-effect:"+mode,
+				"Storage.Put issued after the contract destroyed/migrated itself succeeded; its entry is live under the dead address", id)
+		}
+		if len(oldLive) != 0 {
+			r.Violation("vm:live-key-under-dead-address:"+mode+":right-after", fmt.Sprintf("%d keys still live under the old address", len(oldLive)), id)
+		}
+		if cs, _ := c.Ledger.GetContractState(X); cs != nil {
+			r.Violation("vm:dead-address-still-has-contract:"+mode, "GetContractState(X) != nil", id)
+		}
+		expectY := map[string]string{}
+		if mode == "migrate" {
+			if cs, _ := c.Ledger.GetContractState(Y); cs == nil {
+				r.Violation("vm:migration-target-has-no-contract", "GetContractState(Y) == nil", id)
+			}
+			// every key put into X must be readable under Y with the last value written
+			last := model
+			got := storageOf(dump, Y)
+			for k, v := range last {
+				gv, ok := got[k]
+				if !ok || !bytes.HasSuffix([]byte(gv), v) {
+					r.Violation("vm:migrated-entry-missing-or-changed", fmt.Sprintf("key %x under Y: present=%v", k, ok), id)
+				}
+			}
+			if len(got) != len(last) {
+				r.Violation("vm:migrated-entry-count", fmt.Sprintf("Y holds %d entries, X had %d", len(got), len(last)), id)
+			}
+			expectY = got
+			r.Count("vm/migrated_entries_checked")
+		}
+		// --- attacks on the dead address, over 2 further blocks
+		for round := 0; round < 2; round++ {
+			var atk []*types.Transaction
+			atk = append(atk, putTx(X, []byte("again"), []byte("v"))) // call through the old address
+			atk = append(atk, deployTx(xCode))                        // redeploy by Deploy transaction
+			ca := chain.NewAsm()
+			migrateArgs(ca, xCode)
+			atk = append(atk, invoke(ca.Syscall("Ontology.Contract.Create").Op(neovm.DROP).Bytes())) // redeploy by Contract.Create
+			ma := chain.NewAsm()
+			migrateArgs(ma, xCode)
+			atk = append(atk, invoke(ma.PushInt(4).AppCall(Z).Bytes())) // migrate a third contract TO the dead address
+			if mode == "migrate" {
+				atk = append(atk, putTx(Y, []byte("fresh"), []byte{byte(round)})) // the new incarnation keeps working
+				expectY["fresh"] = ""
+			}
+			commit(atk)
+			_, _, dump = c.DumpState()
+			l := storageOf(dump, X)
+			if zombie {
+				delete(l, "Zkey")
+			}
+			if len(l) != 0 {
+				ks := []string{}
+				for k := range l {
+					ks = append(ks, fmt.Sprintf("%x", k))
+				}
+				sort.Strings(ks)
+				r.Violation("vm:live-key-under-dead-address:"+mode+":after-attacks", fmt.Sprintf("keys %v", ks), id)
+			}
+			if cs, _ := c.Ledger.GetContractState(X); cs != nil {
+				r.Violation("vm:dead-address-redeployed:"+mode, "GetContractState(X) != nil after redeploy attempts", id)
+			}
+			if mode == "migrate" {
+				got := storageOf(dump, Y)
+				for k := range expectY {
+					if _, ok := got[k]; !ok {
+						r.Violation("vm:new-incarnation-lost-entry", fmt.Sprintf("key %x", k), id)
+					}
+				}
+			}
+			if cs, _ := c.Ledger.GetContractState(Z); cs == nil {
+				r.Violation("vm:third-contract-vanished-after-migrate-to-dead-address", "Z has no contract state", id)
+			}
+			r.Count("vm/attack_rounds")
+		}
+		r.Eval(fmt.Sprintf("vm/%s/%d/%d", mode, nk, blocks))
+		if sc < 3 {
+			r.Sample(map[string]interface{}{"vm_scenario": sc, "mode": mode, "keys": nk, "fill_blocks": blocks})
+		}
+	}
+	for _, m := range []string{"destroy", "migrate"} {
+		r.Require("vm/killed/"+m, 5)
+	}
+	r.Require("vm/attack_rounds", 20)
+	r.Require("vm/migrated_entries_checked", 5)
+	for _, m := range []string{"destroy+put-same-invocation", "migrate+put-old-context-same-invocation"} {
+		if r.Counter("vm/killed/"+m)+r.Counter("vm/kill_tx_failed/"+m) < 2 {
+			r.Require("vm/killed/"+m, 2)
+		}
+	}
+	r.Assume("VM level runs on a solo ledger, where destroyed-contract tracking is active from height 0")
 }
